@@ -17,7 +17,7 @@ RULE = ('Documents: fixtures; generated documents (charset E, markup-rich value 
         'non-trivial = distinct documents whose error messages echo >=1 markup canary.')
 ASSUMPTIONS = ['a segment without any element is listed as "SEG*~" by design of the formatter (don\'t-care)', 'messages of interchange/group/set level errors are not located (the property names segment- and element-level errors)',
                'blanks are rendered as &nbsp;: U+00A0 and U+0020 are identified when comparing']
-REQUIRED_COUNTERS = ['docs:cut-off-with-markup-in-control-numbers', 'cli:invocations', 'cli:reports-compared', 'docs:envelope-element-findings', 'inputs:envelope-soup', 'docs', 'docs:with-errors', 'seg-lines-compared', 'messages-located', 'messages-with-canary', 'docs:multi-interchange', 'docs:other-delimiters']
+REQUIRED_COUNTERS = ['docs:composite-level-findings-with-markup-separator', 'docs:cut-off-with-markup-in-control-numbers', 'cli:invocations', 'cli:reports-compared', 'docs:envelope-element-findings', 'inputs:envelope-soup', 'docs', 'docs:with-errors', 'seg-lines-compared', 'messages-located', 'messages-with-canary', 'docs:multi-interchange', 'docs:other-delimiters']
 MIN_CASES = {'quick': 500, 'thorough': 15000}
 WATCHDOG_S = {'quick': 1200, 'thorough': 7200}
 
@@ -394,6 +394,21 @@ def run(ctx):
                 if f is not None:
                     doc = f.doc
                     kinds.append(f.kind)
+        if terms[2] in '<>&' and fam in ('valid', 'faults', 'canaries'):
+            # the component separator is a markup character: findings about a composite AS A WHOLE (too many components, a simple element that
+            # holds the separator) make the renderer treat that composite specially - its separators are input like everything else
+            f = faults.inject(rng, doc, kind='too_many_components')
+            if f is not None:
+                doc = f.doc
+                kinds.append('too_many_components')
+            sites_ = [x for x in faults.element_sites(doc, None) if x[3] is None and x[1].kind == 'ele' and faults._present(x[4]) and x[1].usage != 'N'
+                      and faults._plain_site(x[0], x[1], x[2], x[3], x[4], doc) and gen_doc.dtype_of(x[1])[0] == 'AN' and not x[1].codes and not x[1].external]
+            if sites_:
+                i2, n2, ep2, sp2, c2 = rng.choice(sites_)
+                doc = faults.clone(doc)
+                doc.recs[i2].vals[ep2 - 1] = ['FIFTH', 'THE']
+                kinds.append('separator-inside-simple-element')
+            ctx.count('docs:composite-level-findings-with-markup-separator')
         if fam == 'envelope-elements':
             # element-level findings on the header / trailer segments of SEVERAL sets and groups (too short ST02/SE02, impossible GS04, GS05):
             # every one of them must be shown next to its own segment, also in the second and third loop of a kind
